@@ -174,6 +174,7 @@ func (e *Exec) runPath(fn *ssa.Function, it workItem) (kind, msg, fatal string) 
 	e.timeNow = 0
 	e.lastNow = nil
 	e.decOrigin = nil
+	e.b64Origin = nil
 	e.randCtr = 0
 	if len(e.prefix) == 0 {
 		e.pmodel = nil
